@@ -34,6 +34,9 @@ type Case struct {
 	Start []StartCursor `json:"start"` // cursor values installed before the picks (for every order of the policy's ready set)
 	G     int           `json:"g"`
 	M     int           `json:"m"`
+	// kind "churn": server lists synced one after the other while G pickers run; then quiescence and a fresh window of M picks
+	// per policy judged against the final configuration (churn.go)
+	Churn [][]lib.Server `json:"churn"`
 }
 
 type group struct {
@@ -136,6 +139,9 @@ func readable(cs Case) string {
 			fmt.Fprintf(&b, "%s(%s,%v); ", op.Op, rig.UnHex(op.N), op.H)
 		}
 	}
+	if cs.Kind == "setup-only" {
+		return strings.TrimSuffix(b.String(), "; ")
+	}
 	if cs.Kind == "conc" {
 		fmt.Fprintf(&b, "%d goroutines x %d picks, policies %v, reuse=%v, start=%v, concurrent unchanged-server Syncs=%v", cs.G, cs.M, cs.Picks, cs.Reuse, cs.Start, cs.Resync)
 	} else {
@@ -160,6 +166,9 @@ func compress(l []int) string {
 }
 
 func runCase(c *rig.Ctx, cs Case, record bool, inf *info) bool {
+	if cs.Kind == "churn" {
+		return runChurn(c, cs, record, inf)
+	}
 	fail := func(kind, class, what string, impl, model interface{}) bool {
 		inf.kind, inf.class = kind, class
 		inf.failure = &rig.Failure{Kind: kind, Class: class, What: what + " | case: " + readable(cs), Case: cs, Impl: impl, Model: model}
@@ -547,6 +556,9 @@ func genCase(c *rig.Ctx, conc bool) Case {
 
 // shrink keeps the kind of failure (a judge failure stays a judge failure of the same class)
 func shrink(c *rig.Ctx, cs Case, kind, class string) Case {
+	if cs.Kind == "churn" {
+		return shrinkChurn(c, cs, kind, class)
+	}
 	fails := func(x Case) bool {
 		var inf info
 		return !runCase(c, x, false, &inf) && inf.kind == kind && (kind != "judge" || inf.class == class)
@@ -627,10 +639,18 @@ func main() {
 				break
 			}
 			cs := genCase(c, i%3 == 2)
+			if i%6 == 4 {
+				cs = genChurn(c)
+			}
 			var inf info
 			ok := runCase(c, cs, false, &inf)
 			picks += inf.n
-			c.Case(rig.Canon(cs), inf.applicable, fmt.Sprintf("%s%s,k=%d,orders=%s", cs.Kind, resyncBucket(cs), inf.maxK, ordersBucket(inf.maxOrders)), func() interface{} { return readable(cs) })
+			c.Case(rig.Canon(cs), inf.applicable, fmt.Sprintf("%s%s,k=%d,orders=%s", cs.Kind, resyncBucket(cs), inf.maxK, ordersBucket(inf.maxOrders)), func() interface{} {
+				if cs.Kind == "churn" {
+					return readableChurn(cs)
+				}
+				return readable(cs)
+			})
 			c.Trace()
 			if !ok {
 				// a failure: from now on look (for a bounded time) for an input on which the property itself fails
@@ -658,6 +678,9 @@ func main() {
 }
 
 func resyncBucket(cs Case) string {
+	if cs.Kind == "churn" {
+		return ""
+	}
 	if cs.Kind == "conc" {
 		if cs.Resync {
 			return "+syncs"
